@@ -1168,6 +1168,40 @@ static carquet_status_t load_next_page(
 }
 
 /* ============================================================================
+ * Retired page buffers
+ * ============================================================================
+ * A read call may span several pages. Byte-array values returned for an
+ * earlier page point into that page's buffer, so the buffer must stay alive
+ * until the caller's next read call instead of being freed when the next
+ * page is loaded.
+ */
+
+static carquet_status_t retire_page_data(carquet_column_reader_t* reader) {
+    if (!reader->page_data_for_values) {
+        return CARQUET_OK;
+    }
+    if (reader->retired_count == reader->retired_capacity) {
+        size_t capacity = reader->retired_capacity ? reader->retired_capacity * 2 : 4;
+        uint8_t** grown = realloc(reader->retired_page_data, capacity * sizeof(uint8_t*));
+        if (!grown) {
+            return CARQUET_ERROR_OUT_OF_MEMORY;
+        }
+        reader->retired_page_data = grown;
+        reader->retired_capacity = capacity;
+    }
+    reader->retired_page_data[reader->retired_count++] = reader->page_data_for_values;
+    reader->page_data_for_values = NULL;
+    return CARQUET_OK;
+}
+
+void carquet_column_reader_release_retired(carquet_column_reader_t* reader) {
+    for (size_t i = 0; i < reader->retired_count; i++) {
+        free(reader->retired_page_data[i]);
+    }
+    reader->retired_count = 0;
+}
+
+/* ============================================================================
  * Page Reading Entry Point
  * ============================================================================
  */
@@ -1190,6 +1224,12 @@ carquet_status_t carquet_read_next_page(
     if (!reader->page_loaded || reader->page_values_read >= reader->page_num_values) {
         /* If we had a previous page, advance past it */
         if (reader->page_loaded) {
+            /* Values already returned by this call may point into its buffer */
+            carquet_status_t retire_status = retire_page_data(reader);
+            if (retire_status != CARQUET_OK) {
+                CARQUET_SET_ERROR(error, retire_status, "Failed to retain page buffer");
+                return retire_status;
+            }
             reader->current_page += reader->page_header_size + reader->page_compressed_size;
             reader->page_loaded = false;
         }
